@@ -85,3 +85,25 @@ def once_per_partition(cond_vec, part_vec, n_cond, n_part):
 def indicator_rows(cond_of_obs, n_cond):
     """explicit n_obs x n_cond indicator design matrix as list of lists"""
     return [[1.0 if c == k else 0.0 for k in range(n_cond)] for c in cond_of_obs]
+
+
+def noise_term_candidates(u, noise, cov_channel=None, cov_trial=None):
+    """the noise term that belongs to ONE uniform draw u (n_obs x n_channel, values in (0,1)):
+
+        N = sqrt(noise) * Phi^-1(u)                      i.i.d. normal deviates of variance `noise`
+        spatial kernel:   N @ K_c  with K_c a Cholesky factor of cov_channel
+        temporal kernel:  K_t @ (...)  with K_t a Cholesky factor of cov_trial
+
+    The statement does not say which triangular factor is the kernel, so both (lower factor L and
+    its transpose) are returned as admissible references for each kernel given; nothing here
+    depends on the signal strength.  Phi^-1 = scipy.special.ndtri (trusted base)."""
+    from scipy.special import ndtri
+    base = np.sqrt(float(noise)) * ndtri(np.asarray(u, dtype=float))
+    cands = [base]
+    if cov_channel is not None:
+        L = np.linalg.cholesky(np.asarray(cov_channel, dtype=float))
+        cands = [c @ k for c in cands for k in (L, L.T)]
+    if cov_trial is not None:
+        L = np.linalg.cholesky(np.asarray(cov_trial, dtype=float))
+        cands = [k @ c for c in cands for k in (L, L.T)]
+    return cands
